@@ -35,6 +35,16 @@ class Cancel(BaseException):
         return "Cancel(%d)" % self.serial
 
 
+def _cancel_variant(name, other):
+    """A cancellation that is *also* an instance of an ordinary exception class (what is thrown in is the loop's choice)"""
+    return type(name, (Cancel, other), {"__doc__": "Cancel that is also a %s" % other.__name__})
+
+
+CANCEL_TYPES = (Cancel, _cancel_variant("CancelAttributeError", AttributeError), _cancel_variant("CancelKeyError", KeyError),
+                _cancel_variant("CancelTypeError", TypeError), _cancel_variant("CancelRuntimeError", RuntimeError),
+                _cancel_variant("CancelValueError", ValueError))
+
+
 # what a consumer has to catch to see a cancellation on either backend (token loop / asyncio)
 import asyncio as _asyncio  # noqa: E402
 
@@ -156,6 +166,7 @@ class Sim:
         self.log = []  # shared event log of the run
         self.trace = []  # (task id, token kind) per step: the interleaving
         self.breaches = []  # C17 protocol breaches
+        self.cancel_type = Cancel  # class of the exception thrown in as cancellation (a Cancel subclass)
         self.n_tokens = 0
         self.n_yielded = 0   # times a user awaitable yielded its token ...
         self.n_received = 0  # ... and times the loop got one: equal unless somebody else drove an awaitable
@@ -254,7 +265,7 @@ class Sim:
                 # inject the cancellation at this suspension point
                 del plan[task.id]
                 self._leave_wait(task)
-                cancel = Cancel(self.serial + 1)
+                cancel = self.cancel_type(self.serial + 1)
                 self.cancel_sent = cancel
                 task.cancelled_with = cancel
                 self.cancel_fired_at = (task.id, token.kind, token.party)
